@@ -10,6 +10,7 @@ import (
 	"path/filepath"
 	"sort"
 	"strings"
+	"sync/atomic"
 
 	"golang.org/x/sys/unix"
 	"tags.cncf.io/container-device-interface/pkg/cdi"
@@ -582,6 +583,9 @@ func (p *Pop) Describe() map[string]any {
 	return map[string]any{"configured_dirs": p.Conf, "files": files}
 }
 
+// queryTurn rotates which query is asked first (compareCache, cacheState).
+var queryTurn atomic.Int64
+
 // compareCache compares every query of the cache with the model. It returns
 // a list of discrepancies (empty = agreement).
 func compareCache(c *cdi.Cache, res *Resolved, checkErrKeys bool) []string {
@@ -591,52 +595,73 @@ func compareCache(c *cdi.Cache, res *Resolved, checkErrKeys bool) []string {
 		devs = append(devs, q)
 	}
 	sort.Strings(devs)
-	got := c.ListDevices()
-	if strings.Join(got, " ") != strings.Join(devs, " ") {
-		bad = append(bad, fmt.Sprintf("ListDevices = %v, model = %v", got, devs))
+	// every query brings the cache up to date by itself: which group of queries comes
+	// first changes from call to call, what they answer must not depend on it
+	var groups []func()
+	defer func() {}()
+	groups = append(groups, func() {
+		got := c.ListDevices()
+		if strings.Join(got, " ") != strings.Join(devs, " ") {
+			bad = append(bad, fmt.Sprintf("ListDevices = %v, model = %v", got, devs))
+		}
+	})
+	groups = append(groups, func() {
+		for _, q := range devs {
+			d := c.GetDevice(q)
+			w := res.Devices[q]
+			if d == nil {
+				bad = append(bad, fmt.Sprintf("GetDevice(%s) = nil, model resolves it to %s", q, w.Path))
+				continue
+			}
+			if d.GetSpec().GetPath() != w.Path || d.GetSpec().GetPriority() != w.Prio {
+				bad = append(bad, fmt.Sprintf("GetDevice(%s) from %s prio %d, model: %s prio %d", q, d.GetSpec().GetPath(), d.GetSpec().GetPriority(), w.Path, w.Prio))
+			}
+			if g, m := normJSON(d.Device), normJSON(w.Dev); g != m {
+				bad = append(bad, fmt.Sprintf("GetDevice(%s) definition %s, model %s", q, g, m))
+			}
+			if d.GetQualifiedName() != q {
+				bad = append(bad, fmt.Sprintf("GetDevice(%s).GetQualifiedName() = %s", q, d.GetQualifiedName()))
+			}
+		}
+		// names that must not resolve
+		for _, q := range []string{"vendor.com/gpu=nope", "nope.com/gpu=dev0", "vendor.com/gpu", "", "vendor.com/gpu=dev0x"} {
+			if _, ok := res.Devices[q]; !ok && c.GetDevice(q) != nil {
+				bad = append(bad, fmt.Sprintf("GetDevice(%q) resolves but no valid Spec defines it", q))
+			}
+		}
+	})
+	groups = append(groups, func() {
+		if g := c.ListVendors(); strings.Join(g, " ") != strings.Join(res.Vendors, " ") {
+			bad = append(bad, fmt.Sprintf("ListVendors = %v, model %v", g, res.Vendors))
+		}
+	})
+	groups = append(groups, func() {
+		if g := c.ListClasses(); strings.Join(g, " ") != strings.Join(res.Classes, " ") {
+			bad = append(bad, fmt.Sprintf("ListClasses = %v, model %v", g, res.Classes))
+		}
+	})
+	groups = append(groups, func() {
+		for _, v := range append(append([]string{}, res.Vendors...), "nope.com") {
+			var g, m []string
+			for _, s := range c.GetVendorSpecs(v) {
+				g = append(g, fmt.Sprintf("%s@%d", s.GetPath(), s.GetPriority()))
+			}
+			for _, pp := range res.VendorSpecs[v] {
+				m = append(m, fmt.Sprintf("%s@%d", pp.Path, pp.Prio))
+			}
+			sort.Strings(g)
+			sort.Strings(m)
+			if strings.Join(g, " ") != strings.Join(m, " ") {
+				bad = append(bad, fmt.Sprintf("GetVendorSpecs(%s) = %v, model %v", v, g, m))
+			}
+		}
+	})
+	turn := int(queryTurn.Add(1))
+	for k := range groups {
+		groups[(turn+k)%len(groups)]()
 	}
-	for _, q := range devs {
-		d := c.GetDevice(q)
-		w := res.Devices[q]
-		if d == nil {
-			bad = append(bad, fmt.Sprintf("GetDevice(%s) = nil, model resolves it to %s", q, w.Path))
-			continue
-		}
-		if d.GetSpec().GetPath() != w.Path || d.GetSpec().GetPriority() != w.Prio {
-			bad = append(bad, fmt.Sprintf("GetDevice(%s) from %s prio %d, model: %s prio %d", q, d.GetSpec().GetPath(), d.GetSpec().GetPriority(), w.Path, w.Prio))
-		}
-		if g, m := normJSON(d.Device), normJSON(w.Dev); g != m {
-			bad = append(bad, fmt.Sprintf("GetDevice(%s) definition %s, model %s", q, g, m))
-		}
-		if d.GetQualifiedName() != q {
-			bad = append(bad, fmt.Sprintf("GetDevice(%s).GetQualifiedName() = %s", q, d.GetQualifiedName()))
-		}
-	}
-	// names that must not resolve
-	for _, q := range []string{"vendor.com/gpu=nope", "nope.com/gpu=dev0", "vendor.com/gpu", "", "vendor.com/gpu=dev0x"} {
-		if _, ok := res.Devices[q]; !ok && c.GetDevice(q) != nil {
-			bad = append(bad, fmt.Sprintf("GetDevice(%q) resolves but no valid Spec defines it", q))
-		}
-	}
-	if g := c.ListVendors(); strings.Join(g, " ") != strings.Join(res.Vendors, " ") {
-		bad = append(bad, fmt.Sprintf("ListVendors = %v, model %v", g, res.Vendors))
-	}
-	if g := c.ListClasses(); strings.Join(g, " ") != strings.Join(res.Classes, " ") {
-		bad = append(bad, fmt.Sprintf("ListClasses = %v, model %v", g, res.Classes))
-	}
-	for _, v := range append(append([]string{}, res.Vendors...), "nope.com") {
-		var g, m []string
-		for _, s := range c.GetVendorSpecs(v) {
-			g = append(g, fmt.Sprintf("%s@%d", s.GetPath(), s.GetPriority()))
-		}
-		for _, pp := range res.VendorSpecs[v] {
-			m = append(m, fmt.Sprintf("%s@%d", pp.Path, pp.Prio))
-		}
-		sort.Strings(g)
-		sort.Strings(m)
-		if strings.Join(g, " ") != strings.Join(m, " ") {
-			bad = append(bad, fmt.Sprintf("GetVendorSpecs(%s) = %v, model %v", v, g, m))
-		}
+	if len(bad) > 0 {
+		bad = append(bad, fmt.Sprintf("(query group asked first in this comparison: %d of ListDevices, GetDevice, ListVendors, ListClasses, GetVendorSpecs)", turn%len(groups)))
 	}
 	if checkErrKeys {
 		errs := c.GetErrors()
